@@ -288,8 +288,12 @@ class Gen:
         if ca == "call":
             rest = self.args(d)
             return path + "." + m + ".call(" + this + (", " + rest if rest else "") + ")"
-        j = self.r.below(6)
-        if j == 0:
+        j = self.r.below(7)
+        if j == 6:
+            # a spread array literal: `...[a, b]` is the same argument list as `a, b`
+            self.tags.add('apply-spread-array-literal')
+            arr = "...[" + self.array_elems(d) + "]"
+        elif j == 0:
             arr = self.ident()
         elif j == 1:
             arr = "..." + self.ident()
